@@ -265,7 +265,7 @@ def make_machine(ctx: Any) -> Any:
 
 
 def run_shard(ctx: Any) -> None:
-    n = 25 if ctx.tier == "quick" else 600
+    n = 40 if ctx.tier == "quick" else 600
     ctx.run_machine(make_machine(ctx), n, 25 if ctx.tier == "quick" else 40)
 
 
